@@ -74,6 +74,121 @@ async fn run_case(line: &str) -> String {
     format!("HASH {} URL {} TARGET {} HOST {} PORT {} {}", hex(&hash), hex(url.as_bytes()), hex(&target), hex(&host), port, outcome)
 }
 
+/// C19: the real `TrackerClient::run` loop against a loopback tracker that fails in scripted ways before it answers.
+///
+/// case line:  trkreal <outcome,outcome,...|-> <good reply body hex>
+///             outcomes: refused (nothing listens), drop (accepted, closed without an answer), 500 / 404 (HTTP error),
+///             garbage (200 with a body that is not bencode), failure (200 with a failure reason), empty (200, no body)
+/// output:     CMDS <F|R,...> PEERS <addr/id,...|-> REQS <requests the listener saw> DONE <0|1> EXTRA <0|1>
+async fn run_real(line: &str) -> String {
+    use std::time::Duration;
+    let t: Vec<&str> = line.split_whitespace().collect();
+    let script: Vec<&str> = if t[1] == "-" { vec![] } else { t[1].split(',').collect() };
+    let good = unhex(t[2]);
+    // a bound socket that does not listen yet refuses connections while keeping the port ours; "refused" outcomes are
+    // therefore a prefix of the script (the generator's rule)
+    let sock = tokio::net::TcpSocket::new_v4().unwrap();
+    sock.bind("127.0.0.1:0".parse().unwrap()).unwrap();
+    let port = sock.local_addr().unwrap().port();
+    let mut sock = Some(sock);
+    let announce = format!("http://127.0.0.1:{}/announce", port);
+    let doc = format!("d8:announce{}:{}4:infod6:lengthi7e4:name1:f12:piece lengthi4e6:pieces40:AAAAAAAAAAAAAAAAAAAABBBBBBBBBBBBBBBBBBBBee", announce.len(), announce).into_bytes();
+    let m = Metainfo::from_bencode(&doc).expect("harness torrent must parse");
+    let (tx, mut rx) = tokio::sync::mpsc::channel::<TrackerCmd>(4);
+    let mut client = TrackerClient::new(b"-RD0001-000000000001", m, tx);
+    let mut run = tokio::spawn(async move { client.run().await });
+    let mut cmds: Vec<&str> = vec![];
+    let mut peers = "-".to_string();
+    let mut reqs = 0usize;
+    let mut phases: Vec<&str> = script.clone();
+    phases.push("ok");
+    let mut i = 0;
+    let mut listener: Option<tokio::net::TcpListener> = None;
+    while i < phases.len() {
+        let ph = phases[i];
+        if ph != "refused" && listener.is_none() {
+            listener = Some(sock.take().expect("refused after a listening phase").listen(16).unwrap());
+        }
+        // serve one request (if something listens) and wait for the client's verdict on this attempt
+        let serve = async {
+            if let Some(l) = listener.as_ref() {
+                if let Ok((mut sock, _)) = l.accept().await {
+                    if ph == "drop" {
+                        drop(sock);
+                        return 1usize;
+                    }
+                    let mut buf = vec![];
+                    let mut tmp = [0u8; 4096];
+                    loop {
+                        let k = sock.read(&mut tmp).await.unwrap_or(0);
+                        if k == 0 {
+                            break;
+                        }
+                        buf.extend_from_slice(&tmp[..k]);
+                        if buf.windows(4).any(|w| w == b"\r\n\r\n") {
+                            break;
+                        }
+                    }
+                    let (status, body): (&str, Vec<u8>) = match ph {
+                        "500" => ("500 Internal Server Error", b"oops".to_vec()),
+                        "404" => ("404 Not Found", b"".to_vec()),
+                        "garbage" => ("200 OK", b"<html>not bencode</html>".to_vec()),
+                        "failure" => ("200 OK", b"d14:failure reason9:try latere".to_vec()),
+                        "empty" => ("200 OK", b"".to_vec()),
+                        _ => ("200 OK", good.clone()),
+                    };
+                    let head = format!("HTTP/1.1 {}\r\nContent-Length: {}\r\nConnection: close\r\n\r\n", status, body.len());
+                    let _ = sock.write_all(head.as_bytes()).await;
+                    let _ = sock.write_all(&body).await;
+                    let _ = sock.shutdown().await;
+                    return 1usize;
+                }
+            }
+            std::future::pending::<usize>().await
+        };
+        tokio::pin!(serve);
+        let mut served = 0usize;
+        let verdict = loop {
+            tokio::select! {
+                k = &mut serve, if served == 0 => served = k,
+                c = tokio::time::timeout(Duration::from_secs(20), rx.recv()) => break c,
+            }
+        };
+        reqs += served;
+        match verdict {
+            Ok(Some(TrackerCmd::Fail(_))) => cmds.push("F"),
+            Ok(Some(TrackerCmd::TrackerResp(r))) => {
+                cmds.push("R");
+                let v: Vec<String> = r.peers().iter().map(|(a, id)| format!("{}/{}", hex(a.as_bytes()), hex(id))).collect();
+                if !v.is_empty() {
+                    peers = v.join(",");
+                }
+                break;
+            }
+            _ => {
+                cmds.push("NONE");
+                break;
+            }
+        }
+        i += 1;
+    }
+    // after the answer the task is over: it ends by itself and asks nothing more
+    let done = tokio::time::timeout(Duration::from_secs(3), &mut run).await.is_ok();
+    let extra = match listener.as_ref() {
+        Some(l) => tokio::time::timeout(Duration::from_millis(1500), l.accept()).await.is_ok(),
+        None => false,
+    };
+    run.abort();
+    format!(
+        "CMDS {} PEERS {} REQS {} DONE {} EXTRA {}",
+        if cmds.is_empty() { "-".to_string() } else { cmds.join(",") },
+        peers,
+        reqs,
+        if done { 1 } else { 0 },
+        if extra { 1 } else { 0 }
+    )
+}
+
 pub fn run(lines: &[String]) {
     for k in ["http_proxy", "https_proxy", "HTTP_PROXY", "HTTPS_PROXY", "all_proxy", "ALL_PROXY"] {
         std::env::remove_var(k);
@@ -81,7 +196,8 @@ pub fn run(lines: &[String]) {
     std::env::set_var("NO_PROXY", "*");
     let rt = tokio::runtime::Builder::new_current_thread().enable_all().build().unwrap();
     for line in lines {
-        match guarded(|| rt.block_on(run_case(line))) {
+        let real = line.starts_with("trkreal");
+        match guarded(|| if real { rt.block_on(run_real(line)) } else { rt.block_on(run_case(line)) }) {
             Some(s) => println!("{}", s),
             None => println!("PANIC"),
         }
